@@ -1,6 +1,7 @@
 import Reduino.Driver.Util
 import Reduino.Fw.Buzzer
 import Reduino.Fw.Inputs
+import Reduino.Fw.Actuators
 /- Line protocol for the firmware-side models (tie S_c).  Floats are C `float` (Float32), `g<8 hex>`. -/
 namespace Reduino.Driver
 open Reduino Reduino.Fw
@@ -67,7 +68,89 @@ def runButton (s0 : String) (sig : List Bool) : String :=
   let b : Button := if s0 == "-" then {} else Button.setupSample (s0 == "1")
   " ".intercalate ((b.passes sig).map fun p => s!"c{if p.1 then 1 else 0}v{if p.2 then 1 else 0}")
 
+def ints? (l : List String) : Option (List Int) := l.mapM parseInt
+
+def fledOp? (ws : List String) : Option (FLedOp Float32) :=
+  match ws with
+  | ["on"] => some .on
+  | ["off"] => some .off
+  | ["toggle"] => some .toggle
+  | ["sb", v] => do some (.setBrightness (← parseVal32 v))
+  | ["blink", d, t] => do some (.blink (← parseVal32 d) (← parseVal32 t))
+  | ["fi", a, d] => do some (.fadeIn (← parseVal32 a) (← parseVal32 d))
+  | ["fo", a, d] => do some (.fadeOut (← parseVal32 a) (← parseVal32 d))
+  | "fp" :: d :: p => do some (.flashPattern (← ints? p) (← parseVal32 d))
+  | _ => none
+
+def frgbOp? (ws : List String) : Option (FRgbOp Float32) :=
+  match ws with
+  | ["sc", r, g, b] => do some (.setColor (← parseVal32 r) (← parseVal32 g) (← parseVal32 b))
+  | ["off"] => some .off
+  | ["fade", r, g, b, d, n] => do
+    some (.fade (← parseVal32 r) (← parseVal32 g) (← parseVal32 b) (← parseVal32 d) (← parseVal32 n))
+  | ["blink", r, g, b, t, d] => do
+    some (.blink (← parseVal32 r) (← parseVal32 g) (← parseVal32 b) (← parseVal32 t) (← parseVal32 d))
+  | _ => none
+
+def fservoOp? (ws : List String) : Option (FServoOp Float32) :=
+  match ws with
+  | ["w", a] => do some (.write (← parseVal32 a))
+  | ["wu", p] => do some (.writeUs (← parseVal32 p))
+  | _ => none
+
+def fmotorOp? (ws : List String) : Option (FMotorOp Float32) :=
+  match ws with
+  | ["ss", v] => do some (.setSpeed (← parseVal32 v))
+  | ["bw", v] => do some (.backward (← parseVal32 v))
+  | ["stop"] => some .stop
+  | ["coast"] => some .coast
+  | ["inv"] => some .invert
+  | ["ramp", t, d] => do some (.ramp (← parseVal32 t) (← parseVal32 d))
+  | ["rf", d, v] => do some (.runFor (← parseVal32 d) (← parseVal32 v))
+  | _ => none
+
+/-- generic op-sequence runner -/
+def runSeq {σ op : Type} (parse : List String → Option op) (stepf : σ → op → FOut σ) (shw : σ → String)
+    (s0 : σ) (ops : List String) : String :=
+  let rec go (s : σ) : List String → List String → List String
+    | [], acc => acc.reverse
+    | o :: rest, acc =>
+      match parse (words o) with
+      | none => ("bad-op" :: acc).reverse
+      | some op =>
+        let r := stepf s op
+        if !r.defined then ("undefined" :: acc).reverse
+        else go r.st rest (s!"{showEvs r.evs} {shw r.st}" :: acc)
+  "|".intercalate (go s0 ops [])
+
+def handleFwAct (fields : List String) : Option String :=
+  match fields with
+  | "fwled" :: ctor :: ops =>
+    match parseInt ctor with
+    | some pin => some (runSeq fledOp? FLed.step (fun l => s!"st={if l.state then 1 else 0} b={l.brightness}") ({ pin := pin } : FLed) ops)
+    | none => some "bad-op"
+  | "fwrgb" :: ctor :: ops =>
+    match ints? (words ctor) with
+    | some [r, g, b] => some (runSeq frgbOp? FRgb.step (fun _ => "-") ({ pins := (r, g, b) } : FRgb) ops)
+    | _ => some "bad-op"
+  | "fwservo" :: ctor :: ops =>
+    match (words ctor).mapM parseVal32 with
+    | some [a, b, c, d] =>
+      some (runSeq fservoOp? FServo.step (fun s => s!"a={showF32 s.angle} p={showF32 s.pulse}") (FServo.init a b c d) ops)
+    | _ => some "bad-op"
+  | "fwmotor" :: ctor :: ops =>
+    match ints? (words ctor) with
+    | some [a, b, c] =>
+      some (runSeq fmotorOp? FMotor.step
+        (fun m => s!"sp={showF32 m.speed} ap={showF32 (if m.inverted then -m.speed else m.speed)} inv={if m.inverted then 1 else 0} m={m.mode.name}")
+        (FMotor.init (a, b, c)) ops)
+    | _ => some "bad-op"
+  | _ => none
+
 def handleFw (fields : List String) : Option String :=
+  match handleFwAct fields with
+  | some r => some r
+  | none =>
   match fields with
   | "fwbuzzer" :: ctor :: ops => some (runBuzzer (words ctor) ops)
   | ["fwultra", es, ds, prog] => some (runUltra (nats es) (nats ds) (prog.splitOn ";"))
